@@ -315,7 +315,7 @@ class FlowEmit:
         if not stmts:
             if tail is not None:
                 # a trailing expression of a value-returning function = return
-                if tail[0] in ("if", "block", "for", "while", "loop"):
+                if tail[0] in ("if", "block", "for", "while", "loop") or (tail[0] == "mcall" and tail[2] == "for_each"):
                     return self.block([("expr", tail)], None, env, M, ind)
                 if tail[0] == "mcall" and self.is_effect(tail):
                     return self.block([("expr", tail)], None, env, M, ind)
@@ -333,6 +333,14 @@ class FlowEmit:
                 return [pad + "Flow.ret " + self.retval(t, ty, env)]
             return [pad + self.cont(env, M)]
         s, rest = stmts[0], stmts[1:]
+        # ITER.for_each(|x| body)  is  for x in ITER { body }   (`.into_iter()` / `.iter()` of a list is the list)
+        if s[0] == "expr" and s[1][0] == "mcall" and s[1][2] == "for_each" and len(s[1][3]) == 1 and s[1][3][0][0] == "closure" \
+                and len(s[1][3][0][1]) == 1:
+            it = s[1][1]
+            if it[0] == "mcall" and it[2] in ("into_iter", "iter") and not it[3]: it = it[1]
+            cl = s[1][3][0]
+            body = cl[2] if cl[2][0] == "block" else ("block", [("expr", cl[2])], None)
+            s = ("expr", ("for", cl[1][0], it, body))
         k = s[0]
         skip_once = getattr(self, "_skip_once", False)
         self._skip_once = False
